@@ -1190,24 +1190,46 @@ pub fn tiles_to_rows(tiles: &TileMap) -> Vec<MbRow> {
 	tiles.iter().map(|((z, x, y), p)| (*z, *x, ((1u64 << z) - 1 - *y as u64) as u32, p.clone())).collect()
 }
 
+/// schema freedoms of an MBTiles file beyond `MbChoices` (MBTiles 1.3 fixes the column names and types of `tiles`, not
+/// how the table is implemented). Storage classes other than INTEGER / BLOB cannot occur in a conforming file: the
+/// declared column types give integer affinity, SQLite converts '3' and 3.0 to the integer 3 on insert.
+#[derive(Clone, Debug, Default)]
+pub struct MbSchema {
+	/// the tables are WITHOUT ROWID tables (primary key = coordinates / tile id): there is no `rowid` column
+	pub without_rowid: bool,
+	/// additional columns in `tiles` (table form) or in `map` / `images` and the view (view form)
+	pub extra_columns: bool,
+	/// upper-case type names and a different column order in the CREATE statements
+	pub other_spelling: bool,
+}
 pub fn encode_mbtiles(path: &Path, rows: &[MbRow], ch: &MbChoices, rng: &mut Rng) -> Result<(), String> {
+	encode_mbtiles_schema(path, rows, ch, &MbSchema::default(), rng)
+}
+pub fn encode_mbtiles_schema(path: &Path, rows: &[MbRow], ch: &MbChoices, sc: &MbSchema, rng: &mut Rng) -> Result<(), String> {
 	let _ = std::fs::remove_file(path);
 	let e = |x: rusqlite::Error| format!("sqlite: {x}");
 	let mut conn = rusqlite::Connection::open(path).map_err(e)?;
 	conn.execute_batch("CREATE TABLE metadata (name text, value text);").map_err(e)?;
+	let (int, blob, text) = if sc.other_spelling { ("INTEGER", "BLOB", "TEXT") } else { ("integer", "blob", "text") };
+	let wr = if sc.without_rowid { " WITHOUT ROWID" } else { "" };
 	if ch.as_view {
-		conn.execute_batch(
-			"CREATE TABLE map (zoom_level integer, tile_column integer, tile_row integer, tile_id text);
-			 CREATE TABLE images (tile_data blob, tile_id text);
-			 CREATE VIEW tiles AS SELECT map.zoom_level AS zoom_level, map.tile_column AS tile_column, map.tile_row AS tile_row, images.tile_data AS tile_data FROM map JOIN images ON images.tile_id = map.tile_id;",
-		)
+		let (xm, xi, xv) = if sc.extra_columns { (format!(", grid_id {text}"), format!(", created {int}"), ", map.grid_id AS grid_id".to_string()) } else { (String::new(), String::new(), String::new()) };
+		let (pk_map, pk_img) = if sc.without_rowid { (", PRIMARY KEY (zoom_level, tile_column, tile_row)".to_string(), format!("tile_id {text} PRIMARY KEY, tile_data {blob}")) } else { (String::new(), format!("tile_data {blob}, tile_id {text}")) };
+		conn.execute_batch(&format!(
+			"CREATE TABLE map (zoom_level {int}, tile_column {int}, tile_row {int}, tile_id {text}{xm}{pk_map}){wr};
+			 CREATE TABLE images ({pk_img}{xi}){wr};
+			 CREATE VIEW tiles AS SELECT map.zoom_level AS zoom_level, map.tile_column AS tile_column, map.tile_row AS tile_row, images.tile_data AS tile_data{xv} FROM map JOIN images ON images.tile_id = map.tile_id;"
+		))
 		.map_err(e)?;
-		if ch.with_index {
+		if ch.with_index && !sc.without_rowid {
 			conn.execute_batch("CREATE UNIQUE INDEX map_index ON map (zoom_level, tile_column, tile_row); CREATE UNIQUE INDEX images_id ON images (tile_id);").map_err(e)?;
 		}
 	} else {
-		conn.execute_batch("CREATE TABLE tiles (zoom_level integer, tile_column integer, tile_row integer, tile_data blob);").map_err(e)?;
-		if ch.with_index {
+		let x = if sc.extra_columns { format!(", tile_hash {text}, updated {int} DEFAULT 0") } else { String::new() };
+		let pk = if sc.without_rowid { ", PRIMARY KEY (zoom_level, tile_column, tile_row)" } else { "" };
+		let cols = if sc.other_spelling { format!("tile_data {blob}, tile_row {int}, tile_column {int}, zoom_level {int}") } else { format!("zoom_level {int}, tile_column {int}, tile_row {int}, tile_data {blob}") };
+		conn.execute_batch(&format!("CREATE TABLE tiles ({cols}{x}{pk}){wr};")).map_err(e)?;
+		if ch.with_index && !sc.without_rowid {
 			conn.execute_batch("CREATE UNIQUE INDEX tile_index ON tiles (zoom_level, tile_column, tile_row);").map_err(e)?;
 		}
 	}
